@@ -12,7 +12,7 @@ import (
 func init() { Checks["C14"] = CheckC14 }
 
 // C14 step encoding (core.Case): Kind = function name; In = document;
-// Ints = [handler mode, k, strategy bits, re-entry mode]
+// Ints = [handler mode, k, strategy bits, re-entry mode, repeat count]
 //   handler mode: 0 decline, 1 strategy bits (decline/exact), 2 abort with an error at call k
 //   re-entry mode (what the handler does on its data WITH THE ENCLOSING CALL'S BUFFER before
 //   answering): 0 nothing, 1 SkipValue, 2 Valid, 3 SkipValueFast, 4 nested traversal of
@@ -159,7 +159,17 @@ func (r *c14Runner) step(step *core.Case) (info c14StepInfo, err error) {
 	perr := core.Catch(func() error {
 		want := c14Call(step, nil)
 		got := c14Call(step, &r.buf)
-		ints := append(append([]int64(nil), step.Ints...), 0, 0, 0, 0)
+		ints := append(append([]int64(nil), step.Ints...), 0, 0, 0, 0, 0)
+		// Ints[4] = repeat count: the same call made again and again on the same Buffer (a
+		// counter that leaks on some exit path needs thousands of calls to matter); every
+		// repetition must give the model's outcome
+		for rep := int64(1); rep < ints[4] && got.equal(want); rep++ {
+			got = c14Call(step, &r.buf)
+			if !got.equal(want) {
+				return fmt.Errorf("%s with the reused Buffer, repetition %d of %d: (err==nil %v, p %d, verdict %v, trace %v); with no buffer: (err==nil %v, p %d, verdict %v, trace %v)",
+					step.Kind, rep+1, ints[4], got.errNil, got.p, got.verdict, clip(got.trace), want.errNil, want.p, want.verdict, clip(want.trace))
+			}
+		}
 		handlerFn := step.Kind == "HandleArrayValues" || step.Kind == "HandleObjectValues"
 		info.reentrant = handlerFn && ints[3] != 0 && len(got.trace) > 0
 		info.nontrivial = (r.grew && r.aborted) || info.reentrant
